@@ -250,13 +250,20 @@ func (w *worker[T, JobType]) processNextJob() error {
 	// callers (WaitUntilFinished, PauseAndWait, Stop) therefore never see a job
 	// that is neither pending nor processing, and they are woken up when a
 	// dequeued job turns out to be cancelled or undecodable.
-	w.curProcessing.Add(1)
+	reserved := w.curProcessing.Add(1)
 	dispatched := false
 	defer func() {
 		if !dispatched {
 			w.releaseWaiters(w.curProcessing.Add(^uint32(0)))
 		}
 	}()
+
+	// The limit is enforced by the reservation itself, not only by the event
+	// loop's check: the event loop of a previous run can still be finishing a
+	// pass while Restart has already started the next one.
+	if reserved > w.concurrency.Load() {
+		return nil
+	}
 
 	// Pause/Stop may have intervened since the event loop checked the status.
 	// They store the status first and read curProcessing afterwards, we do the
